@@ -410,6 +410,9 @@ impl Engine for C09 {
     fn exhaustive_note(&self, _quick: bool) -> Option<String> {
         Some("per sampled world: exhaustive over histories of length <= 2 of the full alphabet and length 3 of a sub-alphabet (counter worlds_with_full_k3 = worlds whose whole alphabet fit)".into())
     }
+    fn fresh_thread_per_run(&self) -> bool {
+        true
+    }
     fn required_probes(&self) -> Vec<&'static str> {
         vec!["fault.sink.hard", "fault.render.abort", "op.reparse", "op.clone_parser", "policy.Lazy", "policy.Eager", "policy.OnDemand", "letters.expected_err"]
     }
